@@ -1,13 +1,13 @@
 (* Bundle/ResolverSpec.v — SPECIFICATION of Fluent resolution (property C07).
 
-   A big-step relation  `Eval p (text, errors, calls)`  that says what the text of a pattern is,
+   A big-step relation  `Eval name (text, errors, calls)`  that says what the text of a pattern is,
    which errors are reported and which registered functions are applied to what — one rule per
    clause of the property, written from the property text and independent of the control flow
    of the resolver (no scope record, no writer, no fuel, no placeable counter).  The resolver
    model (Bundle/ResolverModel.v) is proved to produce exactly this (Bundle/ResolverRefine.v,
    Props/C07.v) for every run that stays below the placeable limit.
 
-   Judgements (T = the patterns being expanded, for cycles; env = the arguments in force):
+   Judgements (T = the entries being expanded, for cycles; env = the arguments in force):
      eval_pattern  T env pattern      (text, errors, calls)
      eval_elements T env elements     (text, errors, calls)        left to right
      eval_expr     T env expression   (text, errors, calls)        inline or select
@@ -17,12 +17,20 @@
      eval_values / eval_args                                        call arguments, left to right
      expand        T env reference target (text, errors, calls)    a message/term/attribute reference
 
+   T : list (pname * pattern) = the messages / terms / attributes being expanded, by NAME (with their patterns);
+   a reference to one of them is a cycle.  How "is one of them" is decided is the parameter `is_open`:
+     open_by_identity   the reference names an entry that is being expanded            — the property;
+     open_by_structure  some pattern being expanded is structurally EQUAL to the target — what the code does
+                        (scope.rs: travelled.contains(&pattern) compares the patterns with ==).
+   The two agree on every bundle in which different entries have different patterns (C07_cycles_by_identity);
+   otherwise the code can report a cycle where there is none (finding, witness in Props/C07.v).
+
    env : option fargs.   None   = we are in a message: variables are the CALLER's arguments;
                          Some a = we are inside a term: variables are ONLY the named arguments `a`
                                   of its call site.  env is an argument of the judgement, not a
                                   state: when a nested term call returns, the outer term's env is
                                   simply still there (the D12 regression is impossible by shape).
-   T is likewise an argument: a pattern is "being expanded" exactly while its sub-derivation is open.
+   T is likewise an argument: an entry is "being expanded" exactly while its sub-derivation is open.
 
    NOT in this specification (see Props/C07.v for what is proved about them separately):
      * the placeable limit (MAX_PLACEABLES): Eval describes runs that do not reach it;
@@ -37,7 +45,7 @@ Local Open Scope N_scope.
    fnumber_operands (Number.v), resolver_error / reference_kind / bentry / call_record,
    entry_find (the bundle is an association id -> entry, first registration wins: C10),
    find_attribute (first attribute of that name), plural_keyword (the six category names),
-   pattern_mem (structural membership), lookup / ins_all (FluentArgs is a keyed map: C11). *)
+   pattern_mem (structural membership, only in open_by_structure), lookup / ins_all (FluentArgs is a keyed map: C11). *)
 
 (* (text, errors, calls) and (value, errors, calls) *)
 Definition res : Type := bytes * list resolver_error * list call_record.
@@ -75,14 +83,30 @@ Definition reference_error (r : inline) : resolver_error :=
              | _ => RefVariable []                      (* not a reference; never asked *)
              end).
 
-(* a reference resolves to a pattern, to nothing, or to a message that has no value *)
-Inductive target := Found (q : pattern) | Unknown | Valueless (id : bytes).
+(* the patterns of a bundle, by name: value or attribute of a message, value or attribute of a term *)
+Inductive pname := NMessage (id : bytes) (attr : option bytes) | NTerm (id : bytes) (attr : option bytes).
 
-Definition attr_or_value (value : option pattern) (attrs : list attribute) (attr : option bytes) (id : bytes) : target :=
-  match attr with
-  | Some a => match find_attribute attrs a with Some q => Found q | None => Unknown end
-  | None => match value with Some q => Found q | None => Valueless id end
+Definition pname_eqb (a b : pname) : bool :=
+  match a, b with
+  | NMessage i x, NMessage j y | NTerm i x, NTerm j y => bytes_eqb i j && option_eqb bytes_eqb x y
+  | _, _ => false
   end.
+
+(* a reference resolves to a named pattern, to nothing, or to a message that has no value *)
+Inductive target := Found (n : pname) (q : pattern) | Unknown | Valueless (id : bytes).
+
+Definition attr_or_value (name : option bytes -> pname) (value : option pattern) (attrs : list attribute)
+                         (attr : option bytes) (id : bytes) : target :=
+  match attr with
+  | Some a => match find_attribute attrs a with Some q => Found (name attr) q | None => Unknown end
+  | None => match value with Some q => Found (name None) q | None => Valueless id end
+  end.
+
+(* the two readings of "is being expanded" (see the header) *)
+Definition open_by_identity (n : pname) (q : pattern) (T : list (pname * pattern)) : bool :=
+  existsb (fun x => pname_eqb n (fst x)) T.
+Definition open_by_structure (n : pname) (q : pattern) (T : list (pname * pattern)) : bool :=
+  pattern_mem q (map snd T).
 
 Section Spec.
 Variable call_function : bytes -> list fvalue -> fargs -> fvalue.    (* the registered functions, by name *)
@@ -94,6 +118,7 @@ Variable unescape : bytes -> bytes.                                  (* string-l
 Variable f64_from_str : bytes -> option fval.                        (* number-literal parsing (C12) *)
 Variable entries : list (bytes * bentry).                            (* the bundle: id -> message | term | function *)
 Variable args : option fargs.                                        (* the caller's arguments *)
+Variable is_open : pname -> pattern -> list (pname * pattern) -> bool. (* open_by_identity | open_by_structure *)
 
 Definition transformed (s : bytes) : bytes := match transform with Some tr => tr s | None => s end.
 
@@ -114,13 +139,18 @@ Definition print (v : fvalue) : bytes :=
 (* ---------- lookups ---------- *)
 Definition message_target (id : bytes) (attr : option bytes) : target :=
   match entry_find entries id with
-  | Some (EMessage value attrs) => attr_or_value value attrs attr id
+  | Some (EMessage value attrs) => attr_or_value (NMessage id) value attrs attr id
   | _ => Unknown                                        (* no entry, or the id names a term / function *)
   end.
 Definition term_target (id : bytes) (attr : option bytes) : target :=
   match entry_find entries id with
-  | Some (ETerm value attrs) => attr_or_value (Some value) attrs attr id
+  | Some (ETerm value attrs) => attr_or_value (NTerm id) (Some value) attrs attr id
   | _ => Unknown
+  end.
+Definition pattern_named (n : pname) : option pattern :=
+  match (match n with NMessage id attr => message_target id attr | NTerm id attr => term_target id attr end) with
+  | Found _ q => Some q
+  | _ => None
   end.
 Definition function_named (id : bytes) : option func_impl :=
   match entry_find entries id with Some (EFunction f) => Some f | _ => None end.
@@ -179,12 +209,12 @@ Definition named_name (n : named_arg) : bytes := match n with NamedArgument name
 Definition named_value (n : named_arg) : inline := match n with NamedArgument _ v => v end.
 
 (* ---------- the rules ---------- *)
-Inductive eval_pattern : list pattern -> option fargs -> pattern -> res -> Prop :=
+Inductive eval_pattern : list (pname * pattern) -> option fargs -> pattern -> res -> Prop :=
 | P_elements T env els r :
     eval_elements T env els r ->
     eval_pattern T env (Pattern els) r
 
-with eval_elements : list pattern -> option fargs -> list pattern_element -> res -> Prop :=
+with eval_elements : list (pname * pattern) -> option fargs -> list pattern_element -> res -> Prop :=
 | L_end T env :
     eval_elements T env [] (just [])
 | L_text T env s rest r :                                      (* text verbatim, after the transform *)
@@ -194,7 +224,7 @@ with eval_elements : list pattern -> option fargs -> list pattern_element -> res
     eval_expr T env e r1 -> eval_elements T env rest r2 ->
     eval_elements T env (PlaceableElement e :: rest) (r1 +++ r2)
 
-with eval_expr : list pattern -> option fargs -> expression -> res -> Prop :=
+with eval_expr : list (pname * pattern) -> option fargs -> expression -> res -> Prop :=
 | X_inline T env i r :
     eval_inline T env i r ->
     eval_expr T env (Inline i) r
@@ -206,7 +236,7 @@ with eval_expr : list pattern -> option fargs -> expression -> res -> Prop :=
     eval_value T env sel (v, es, cs) -> chosen variants v = None ->
     eval_expr T env (Select sel variants) (silent es cs +++ fails [] MissingDefault)
 
-with eval_inline : list pattern -> option fargs -> inline -> res -> Prop :=
+with eval_inline : list (pname * pattern) -> option fargs -> inline -> res -> Prop :=
 | I_string T env s :                                           (* neither transformed nor formatted *)
     eval_inline T env (StringLiteral s) (just (unescape s))
 | I_number T env s :
@@ -243,21 +273,20 @@ with eval_inline : list pattern -> option fargs -> inline -> res -> Prop :=
     eval_inline T env (Placeable e) r
 
 (* r = the reference as written; what it stands for *)
-with expand : list pattern -> option fargs -> inline -> target -> res -> Prop :=
-| R_found T env r q out :
-    pattern_mem q T = false ->
-    eval_pattern (q :: T) env q out ->
-    expand T env r (Found q) out
-| R_cyclic T env r q :                                         (* q is being expanded already: reported here, once, not entered.
-                                                                  Corner: "is being expanded" compares patterns structurally. *)
-    pattern_mem q T = true ->
-    expand T env r (Found q) (fails (in_braces r) Cyclic)
+with expand : list (pname * pattern) -> option fargs -> inline -> target -> res -> Prop :=
+| R_found T env r n q out :
+    is_open n q T = false ->
+    eval_pattern ((n, q) :: T) env q out ->
+    expand T env r (Found n q) out
+| R_cyclic T env r n q :                                       (* n is being expanded already: reported here, once, not entered *)
+    is_open n q T = true ->
+    expand T env r (Found n q) (fails (in_braces r) Cyclic)
 | R_unknown T env r :                                          (* unknown message / term / attribute: {source form}, one error *)
     expand T env r Unknown (fails (in_braces r) (reference_error r))
 | R_valueless T env r id :                                     (* a message without a value referenced for its value *)
     expand T env r (Valueless id) (fails (in_braces r) (NoValue id))
 
-with eval_value : list pattern -> option fargs -> inline -> vres -> Prop :=
+with eval_value : list (pname * pattern) -> option fargs -> inline -> vres -> Prop :=
 | V_string T env s :
     eval_value T env (StringLiteral s) (VString (unescape s), [], [])
 | V_number T env s :
@@ -279,7 +308,7 @@ with eval_value : list pattern -> option fargs -> inline -> vres -> Prop :=
     eval_value T env i (VString t, es, cs)
 
 (* positional values, the named arguments as the callee receives them, errors, calls *)
-with eval_args : list pattern -> option fargs -> option call_args
+with eval_args : list (pname * pattern) -> option fargs -> option call_args
                  -> list fvalue * fargs * list resolver_error * list call_record -> Prop :=
 | A_none T env :
     eval_args T env None ([], collect [], [], [])
@@ -289,7 +318,7 @@ with eval_args : list pattern -> option fargs -> option call_args
     eval_args T env (Some (CallArguments positional named))
       (vp, collect (combine (map named_name named) vn), e1 ++ e2, c1 ++ c2)
 
-with eval_values : list pattern -> option fargs -> list inline
+with eval_values : list (pname * pattern) -> option fargs -> list inline
                    -> list fvalue * list resolver_error * list call_record -> Prop :=
 | S_nil T env :
     eval_values T env [] ([], [], [])
@@ -297,8 +326,9 @@ with eval_values : list pattern -> option fargs -> list inline
     eval_value T env i (v, e1, c1) -> eval_values T env rest (vs, e2, c2) ->
     eval_values T env (i :: rest) (v :: vs, e1 ++ e2, c1 ++ c2).
 
-(* Formatting a pattern p of the bundle (a message value, a message attribute, ...): p itself
-   is the first pattern being expanded, there are no term arguments. *)
-Definition Eval (p : pattern) (r : res) : Prop := eval_pattern [p] None p r.
+(* Formatting the pattern named n (a message value, a message attribute, ...): n itself is the first
+   entry being expanded, there are no term arguments. *)
+Definition Eval (n : pname) (r : res) : Prop :=
+  exists q, pattern_named n = Some q /\ eval_pattern [(n, q)] None q r.
 
 End Spec.
